@@ -163,8 +163,10 @@ def one_connection(acc, sc, rng, case, wit, round_no):
 def execute(acc, case):
     rng = random.Random(case["seed"])
     sc = N.Scenario(seed=case["seed"], strategy=case["strategy"], p=case.get("p", 0.1), role=case["role"], apps=[16777251],
-                    lines=case["strategy"] != "rr", max_steps=900_000, wall_s=120)
+                    lines=case["strategy"] != "rr", max_steps=900_000, wall_s=120, transport=case.get("transport", "TCP"))
     wit = {"case": case}
+    if case.get("transport") == "SCTP":
+        acc.counters["sctp_executions"] += 1      # SctpClient/SctpServer over a fake pysctp module (bvm/vnet.py)
     with sc:
         scen.slow_ticker(0.001)
         try:
@@ -209,7 +211,7 @@ def main(tier, seed):
     for i in range(200 if q else 8000):
         cases.append({"seed": seed * 1009 + i, "role": rng.choice(["client", "server"]), "n": rng.choice([1, 2, 3, 6, 12]),
                       "back_to_back": rng.random() < 0.5, "strategy": rng.choice(["rr", "rr", "rw"]), "p": rng.choice([0.02, 0.1]),
-                      "rounds": rng.choice([1, 1, 2, 3]), "flood": rng.choice([0, 0, 0, 6])})
+                      "rounds": rng.choice([1, 1, 2, 3]), "flood": rng.choice([0, 0, 0, 6]), "transport": rng.choice(["TCP", "TCP", "TCP", "SCTP"])})
     for i in range(24 if q else 600):
         cases.append({"seed": seed * 1013 + i, "role": rng.choice(["client", "server"]), "n": rng.choice([2, 3, 5]), "back_to_back": True,
                       "strategy": rng.choice(["rr", "rw"]), "p": 0.05, "rounds": 1, "flood": 0, "backlog": rng.choice([12, 24])})
